@@ -2,7 +2,7 @@
    This is what the OCaml driver calls; each command evaluates model functions on a case that the
    Python harness also runs on the rebuilt implementation. *)
 From OptreeModel Require Export Wire Flatten Unflatten Spec Ops Registry Pickle Accessor.
-From OptreeModel Require Ravel Dataclass Typing Faults Depth Alias Conc ArraySpec Construct Walk.
+From OptreeModel Require Ravel Dataclass Typing Faults Depth Alias Conc ArraySpec Construct Walk PrefixErr.
 
 Definition bad : sexp := SL [SI 2].   (* undecodable input: a harness error, never a verdict *)
 
@@ -72,6 +72,12 @@ Definition cmd_pair (c1 : cfg) (o1 : obj) (c2 : cfg) (o2 : obj) : sexp :=
     end
   | _, _ => SL [SI 5]     (* one of the trees does not flatten: not a case for this command *)
   end.
+
+(* cmd 25: prefix_errors(prefix tree, full tree) — the list of (key path, error kind) *)
+Definition enc_pek (k : PrefixErr.pek) : sexp :=
+  SI match k with PrefixErr.PEType => 0 | PrefixErr.PEKeys => 1 | PrefixErr.PEArity => 2 | PrefixErr.PEMeta => 3 end.
+Definition cmd_prefix_errors (c : cfg) (p f : obj) : sexp :=
+  enc_res (fun l => SL (map (fun '(pa, k) => SL [enc_path pa; enc_pek k]) l)) (PrefixErr.prefix_errors c p f).
 
 (* the finite family of mapped functions used by the harness *)
 Definition fun_of_code (code : Z) (i : nat) (row : list obj) : res obj :=
@@ -559,6 +565,11 @@ Definition run (s : sexp) : sexp :=
     match dec_cfg c, dec_obj o with
     | Some c', Some o' => cmd_depth c' o'
     | _, _ => bad
+    end
+  | SL [SI 25; c; p; f] =>
+    match dec_cfg c, dec_obj p, dec_obj f with
+    | Some c', Some p', Some f' => cmd_prefix_errors c' p' f'
+    | _, _, _ => bad
     end
   | _ => bad
   end.
